@@ -171,6 +171,58 @@ func c01Cfgs(c *chk.Ctx) []placeCfg {
 	}
 }
 
+// c01MultiClass: four shards, every combination of health classes (in sync / not ready / out of sync) on them,
+// one target with a well-scraped normal copy on any subset of the shards, nothing / a small / a big new target.
+func c01MultiClass(emit func(*h1.Scenario)) {
+	classes := []int{shInSync, shNotReady, shHashAcceptStill}
+	const n = 4
+	product([]int{3, 3, 3, 3, 2, 2, 2, 2, 3, 2}, func(ix []int) {
+		opt := h1.Opt{MaxHead: 0, MaxProc: 100, MaxShard: 99, MinShard: 0, IdleSec: []int64{0, 3600}[ix[9]]}
+		b := newB(opt, n)
+		b.Target(1, 40, 40, true, "up")
+		for s := 0; s < n; s++ {
+			if ix[4+s] == 1 {
+				b.Copy(s, 1, coN5.st(40, 40))
+			}
+			b.Class(s, classes[ix[s]])
+		}
+		switch ix[8] {
+		case 1:
+			b.Target(9, 10, 10, true, "up")
+		case 2:
+			b.Target(9, 70, 70, true, "up")
+		}
+		emit(b.Done(7200))
+	})
+}
+
+// c01NearlyFull: realistic magnitudes (limit 1000): shards that are empty, half full or within a few series of
+// the limit, and a new target of 1 to 10 series (free space below one percent of the limit).
+func c01NearlyFull(emit func(*h1.Scenario)) {
+	loads := []int64{0, 500, 993, 995, 999}
+	for n := 2; n <= 3; n++ {
+		dims := []int{}
+		for i := 0; i < n; i++ {
+			dims = append(dims, len(loads))
+		}
+		dims = append(dims, 4, 2, 2)
+		product(dims, func(ix []int) {
+			opt := h1.Opt{MaxHead: []int64{0, 1000}[ix[n+1]], MaxProc: 1000, MaxShard: 99, MinShard: 0, IdleSec: []int64{0, 3600}[ix[n+2]]}
+			b := newB(opt, n)
+			for s := 0; s < n; s++ {
+				if l := loads[ix[s]]; l > 0 {
+					h := uint64(100 + s)
+					b.Target(h, l, l, true, "up")
+					b.Copy(s, h, coN5.st(l, l))
+				}
+			}
+			sz := []int64{1, 2, 5, 10}[ix[n]]
+			b.Target(9, sz, sz, true, "up")
+			emit(b.Done(7200))
+		})
+	}
+}
+
 func c01Oracle(sc *h1.Scenario, o *h1.Obs) []Finding {
 	var fs []Finding
 	disc := map[uint64]bool{}
@@ -190,6 +242,19 @@ func c01Oracle(sc *h1.Scenario, o *h1.Obs) []Finding {
 			if rep.Absent || rep.ShardsErr {
 				continue
 			}
+			// shards at positions >= the last scale request that took effect are gone after the cycle
+			remaining := len(rep.Shards)
+			for k, arg := range ro.Scales {
+				failed := false
+				for _, e := range rep.ScaleErrAt {
+					if e == k {
+						failed = true
+					}
+				}
+				if !failed {
+					remaining = int(arg)
+				}
+			}
 			reportedBy := map[uint64][]int{} // in-sync shards reporting h
 			eff := make([]map[uint64]string, len(rep.Shards))
 			for si := range rep.Shards {
@@ -206,12 +271,22 @@ func c01Oracle(sc *h1.Scenario, o *h1.Obs) []Finding {
 					continue
 				}
 				kept := false
+				removedWithIt := false
 				for si := range rep.Shards {
 					if rep.Shards[si].InSync() {
 						if _, ok := eff[si][h]; ok {
-							kept = true
+							if si < remaining {
+								kept = true
+							} else {
+								removedWithIt = true
+							}
 						}
 					}
+				}
+				if !kept && removedWithIt {
+					fs = append(fs, Finding{Clause: "orphaned", Sig: "C01:orphaned:holder-removed-by-scaling",
+						Detail: fmt.Sprintf("target %d is held only by in-sync shard(s) at positions >= %d, which the cycle's scale request %v removes (%d shards)", h, remaining, ro.Scales, len(rep.Shards))})
+					continue
 				}
 				if !kept {
 					states := ""
@@ -258,6 +333,8 @@ func init() {
 			for _, p := range cfgs {
 				placeGen(p)(emit)
 			}
+			c01MultiClass(emit)
+			c01NearlyFull(emit)
 		}
 		runH1(c, 1, gen, c01Oracle, func(sc *h1.Scenario, o *h1.Obs) bool {
 			for _, rq := range o.Cycles[0].Reps[0].Reqs {
